@@ -98,11 +98,11 @@ Definition assign_scalar (k : skind) (s : src) (buf : bool) (old : val) : option
     match s with
     | SrcStr t | SrcBytes t => Some (VStr t)
     | _ =>
-      (* the documented quirk of AssignToStr (it belongs to C19): without a buffer the rendered
-         number is APPENDED to the old content: "old" <- 42 gives "old42" *)
-      match render_src s, old with
-      | Some r, VStr o => Some (VStr (if buf then r else o ++ r))
-      | _, _ => None
+      (* anything else is rendered into a fresh slice: the old content is replaced, with or
+         without a buffer (the unbuffered append of the pinned commit was repaired by C19) *)
+      match render_src s with
+      | Some r => Some (VStr r)
+      | None => None
       end
     end
   end.
